@@ -221,3 +221,41 @@ impl AccessControlBuiltin {
     }
   }
 }
+
+// Verification hooks: re-exports of the (module-private) document types and a way to install
+// already parsed documents under a fresh PermissionsHandle, so that the in-crate drivers can
+// evaluate the real decision functions on generated documents.
+#[cfg(rustdds_verif)]
+pub(crate) mod verif {
+  pub(crate) use super::{
+    domain_governance_document::{
+      BasicProtectionKind, DomainGovernanceDocument, DomainRule, ProtectionKind, TopicRule,
+    },
+    domain_participant_permissions_document::{
+      Action, AllowOrDeny, Criterion, DomainIds, DomainParticipantPermissions, Grant, Rule,
+    },
+    s_mime_config_parser::SignedDocument,
+  };
+  pub(crate) use crate::security::certificate::{Certificate, DistinguishedName};
+}
+
+#[cfg(rustdds_verif)]
+impl AccessControlBuiltin {
+  pub(crate) fn verif_install(
+    &mut self,
+    subject_name: DistinguishedName,
+    permissions: Option<DomainParticipantPermissions>,
+    domain_rule: Option<DomainRule>,
+  ) -> PermissionsHandle {
+    let permissions_handle = self.generate_permissions_handle();
+    if let Some(domain_rule) = domain_rule {
+      self.domain_rules.insert(permissions_handle, domain_rule);
+    }
+    if let Some(permissions) = permissions {
+      self
+        .domain_participant_permissions
+        .insert(permissions_handle, (subject_name, permissions));
+    }
+    permissions_handle
+  }
+}
